@@ -1498,6 +1498,50 @@ fn generate(tier: &str) -> Vec<String> {
         }
         v
     };
+    // 12b. the INT/FLOAT comparison box: every core value in every integer form against the doubles at and
+    //     next to it (the double `x as f64` rounds to, its two neighbours, and for the type maxima the
+    //     power of two just above, which is where the saturating casts of the comparison fallback bite)
+    //     in every float form (literal, variable, serde, f32 where exact, computed), all six operators,
+    //     both orders
+    for a in &core {
+        let m = a.mag as f64;
+        let mut near: Vec<f64> = Vec::new();
+        for d in [0u64, 1, 2] {
+            near.push(f64::from_bits(m.to_bits().wrapping_add(d).wrapping_sub(1)));
+        }
+        if a.mag > 0 {
+            near.push(m * 2.0);
+            near.push(m / 2.0);
+        }
+        near.retain(|x| x.is_finite() && *x >= 0.0);
+        near.dedup();
+        for g in &near {
+            let f = if a.neg { -*g } else { *g };
+            let mut ftoks: Vec<String> = vec![format!("flit:{:016x}", f.to_bits()), format!("f64:{:016x}", f.to_bits()), format!("sf64:{:016x}", f.to_bits())];
+            if (f as f32) as f64 == f {
+                ftoks.push(format!("f32:{:08x}", (f as f32).to_bits()));
+            }
+            if f.abs() >= 2.0 {
+                let h = f / 2.0;
+                let ht = format!("{:?}", h.abs());
+                ftoks.push(format!("fexp:({}*2)={:016x}", if h < 0.0 { format!("(-{})", ht) } else { ht }, f.to_bits()));
+            }
+            for ta in wide_forms(a) {
+                for (j, tf) in ftoks.iter().enumerate() {
+                    for (k, op) in CMP.iter().enumerate() {
+                        if (j + k) % 2 == 0 {
+                            cases.push(format!("{} {} {}", op, ta, tf));
+                        } else {
+                            cases.push(format!("{} {} {}", op, tf, ta));
+                        }
+                    }
+                    let o = CMP[(j + ta.len()) % 6];
+                    cases.push(format!("chain:{},{} {} {} {}", o, CMP[(j + 3) % 6], ta, tf, ta));
+                    cases.push(format!("chain:{},{} {} {} {}", CMP[(j + 1) % 6], o, tf, ta, tf));
+                }
+            }
+        }
+    }
     for a in &core {
         for ta in wide_forms(a) {
             cases.push(format!("neg {}", ta));
